@@ -162,7 +162,7 @@ func init() {
 		o := o
 		p.Strata = append(p.Strata, mon.Stratum{
 			Name: "random/" + o.Name,
-			N:    qt(12000, 250000),
+			N:    qt(12000, 625000),
 			Run: func(c *mon.Ctx, i int) {
 				prof := []gen.Profile{gen.PDefault, gen.PTiny, gen.PNulls, gen.PDeep}[i%4]
 				if o.Merge && i%2 == 0 {
@@ -202,7 +202,7 @@ func init() {
 	}
 	p.Strata = append(p.Strata, mon.Stratum{
 		Name: "precision-placement",
-		N:    qt(6000, 100000),
+		N:    qt(6000, 250000),
 		Run: func(c *mon.Ctx, i int) {
 			eps := []float64{0.1, 0.5, 1e-9}[i%3]
 			x := gen.Pick(c.R, []float64{0, 1, 2.5, -3, 100})
@@ -226,7 +226,7 @@ func init() {
 	p.Strata = append(p.Strata, mon.Stratum{
 		Name: "cli-exit-status",
 		CLI:  true,
-		N:    qt(700, 15000),
+		N:    qt(700, 37500),
 		Run: func(c *mon.Ctx, i int) {
 			o := c05Opts[i%len(c05Opts)]
 			prof := []gen.Profile{gen.PDefault, gen.PTiny}[(i/len(c05Opts))%2]
